@@ -7,7 +7,8 @@ CONSTANTS
   TokenPerCall = FALSE
   TokenForFailed = FALSE
   UdsKeepsToken = FALSE
+  ServeWhilePending = FALSE
 SPECIFICATION TSpec
-INVARIANTS T_B_PhaseAsSpec T_C01_OwnListenersService T_B_MadeAsSpec T_C08_ReplacementStarted
+INVARIANTS T_B_PhaseAsSpec T_C01_OwnListenersService T_C07_NoCallWhilePending T_C07_WaitsThenServed T_B_MadeAsSpec T_C08_ReplacementStarted
 POSTCONDITION TraceAccepted
 CHECK_DEADLOCK FALSE
